@@ -486,7 +486,13 @@ let () =
                       Monitor.on_join !mon_nodes { Monitor.self = cfg.cf_id; has_cb = cfg.cf_has_cb; pred = cfg.cf_pred; fdc = cfg.cf_fd; cluster = cfg.cf_cluster } impl;
                       incr mon_nodes
                   | _ -> ())
-             | "SET" | "SETTTL" | "DEL" | "DELTTL" -> Monitor.on_local (next_int mc) impl ~is_write:true
+             | ("SET" | "SETTTL" | "DEL" | "DELTTL") as kind ->
+                 let i = next_int mc in
+                 let k = next_hex mc in
+                 let v = if kind = "SET" || kind = "SETTTL" then next_hex mc else [] in
+                 let before = Hashtbl.find_opt Monitor.snaps i in
+                 Monitor.on_local i impl ~is_write:true;
+                 Monitor.on_write_model i kind k v before impl
              | "GC" | "HB" -> Monitor.on_local (next_int mc) impl ~is_write:false
              | "PROC" ->
                  let i = next_int mc in
@@ -502,11 +508,11 @@ let () =
              | "HSEND" -> let a = next_int mc in let b = next_int mc in Monitor.on_hs_end a b
              | "DELTA" ->
                  let i = next_int mc in
-                 let _dg = parse_digest mc in
+                 let dg = parse_digest mc in
                  let mtu = next_int mc in
                  let ns = next_int mc in
                  let sched = repeat ns (fun () -> next_id mc) in
-                 Monitor.on_delta i mtu sched impl
+                 Monitor.on_delta ~dg i mtu sched impl
              | _ -> ());
             List.iter
               (fun f ->
